@@ -131,6 +131,18 @@ def inputs(ctx):
     add([(0x10, data(5)), (0x20010, data(33)), (0x80000010, data(64)), (0xFFFF0010, data(3))], 0x80000010)
     add([(0xFFFF0010, data(3)), (0x80000010, data(64)), (0x20010, data(33)), (0x10, data(5))], 0)
     add([(TOP - 64, data(64)), (0, data(64))], 0)       # last and first bytes of the address space
+    # E: gaps that are exact multiples of 64 KiB (the 16-bit record address continues where the previous
+    #    region's ended, only the extended linear address differs), regions ending exactly on a boundary
+    for a0, n0 in [(0x1000, 32), (0xFFE0, 32), (0x2FFF0, 20), (0x7FFEFFFF, 1), (0x10, 61)]:
+        for mult in (1, 2, 0x7FFF):
+            b0 = a0 + n0 + mult * 65536
+            if b0 + 40 > TOP:
+                continue
+            add([(a0, data(n0)), (b0, data(40))], STARTS[k % len(STARTS)])
+            add([(b0, data(7)), (a0, data(n0))], 0)
+            k += 1
+    add([(0x1FFE0, data(32)), (0x20010, data(16))], 0)      # ends on a boundary, next starts inside that segment
+    add([(0x1FFE0, data(32)), (0x30000, data(16)), (0x30020, data(1))], 0)
     # C: a region across two boundaries
     add([(0x2FFF0, data(70000))], 0x2FFF0)
     if thorough:
@@ -143,7 +155,7 @@ def inputs(ctx):
         a = max(0, (hi << 16) - rng.choice([0, 1, 15, 29, 30, 31, 45, 61, 100, 300]))
         regs = []
         for _ in range(nreg):
-            a += rng.choice([0, 0, 0, 1, 2, 29, 30, 65536 - 40, rng.randrange(100), rng.randrange(1 << 18)])
+            a += rng.choice([0, 0, 0, 1, 2, 29, 30, 65536 - 40, 65536, 131072, 65536 * rng.randrange(1, 9), rng.randrange(100), rng.randrange(1 << 18)])
             n = rng.choice([1, 2, 16, 29, 30, 31, 60, 61, rng.randrange(1, 120), rng.randrange(1, 120)])
             if a + n > TOP:
                 break
